@@ -53,12 +53,16 @@ def inquiry_pool(rng, q):
 
 
 def plant_broken(rng, case):
-    """a malformed element in front of a matching one (the regex checker must stay fail-closed on every ask)"""
+    """a malformed element in front of, or behind, a matching one (the regex checker must stay fail-closed on every ask,
+    and an ask that walked into the malformed element must leave nothing behind for an ask that matches the good one)"""
     for p in case['policies']:
-        if rng.random() < 0.35:
-            for fld in ('subjects', 'resources', 'actions'):
+        if rng.random() < 0.5:
+            for fld in rng.sample(['subjects', 'resources', 'actions'], 3):
                 if p[fld] and p[fld][0][0] == 'S':
-                    p[fld] = [('S', p['stag'] + p['stag'] + 'x' + p['etag'])] + list(p[fld])
+                    bad = ('S', p['stag'] + p['stag'] + 'x' + p['etag'])
+                    els = list(p[fld])
+                    els.insert(pick(rng, [0, len(els), len(els), rng.randint(0, len(els))]), bad)
+                    p[fld] = els
                     break
 
 
